@@ -188,6 +188,12 @@ func (s *Store) Delete(ctx context.Context, target ocispec.Descriptor) error {
 		// delete the head of queue
 		danglings, err := s.delete(ctx, head)
 		if err != nil {
+			if !content.Equal(head, target) && errors.Is(err, errdef.ErrNotFound) {
+				// a node queued by the garbage collection is recorded in the
+				// graph but has no content in the storage (e.g. a layer that
+				// was never pushed, or a node that was queued twice)
+				continue
+			}
 			return err
 		}
 		if s.AutoGC {
